@@ -34,9 +34,9 @@ func init() {
 		ID:    "C09",
 		Level: "exploration",
 		Race:  true,
-		Rule: "(a) runs of N=8..64 goroutines sending requests to one handler instance (9 operations: path/query/header/array/body parameters, OR and AND security requirements, an operation whose two alternatives have different scopes and can be satisfied at once, two produces, a Responder result, consumers that stamp their media type), each request carrying a unique token in every position; a quarter of the requests are driven accessor by accessor (RouteInfo, Authorize, BindAndValidate) and read back the stored principal, scopes and matched route; " +
+		Rule: "(a) runs of N=8..64 goroutines sending requests to one handler instance (9 operations: path/query/header/array/body parameters, OR and AND security requirements, an operation whose two alternatives have different scopes and can be satisfied at once, two produces, a Responder result, consumers that stamp their media type), each request carrying a unique token in every position; a quarter of the requests are driven accessor by accessor (RouteInfo, Authorize, BindAndValidate — or, for half of them, the generated-server sequence BindValidRequest with a binder of its own, then Respond) and read back the stored principal, scopes and matched route; about a quarter of the requests must be refused (unacceptable Accept, non-admitted or malformed Content-Type, missing/ill-typed required query parameter, rejected credential, no credentials, unknown path, undeclared method), each judged by its expected status and by the operation handler not having run for its token; " +
 			"GOMAXPROCS in {1,2,4,16}; a PRNG-driven hook callback yields/sleeps at the inter-stage suspension points and records the hook trace; built with -race. " +
-			"(b) random sequences (<=12, with repetition) over RouteInfo/ContentType/ResponseFormat/Authorize/BindAndValidate/ResetAuth on one request (its own token per sequence; key / bearer / both / bad / nil-principal / no credentials; binding outcomes valid, 415, and invalid for validation reasons only), threading the returned request, judged by a 5-flag reference state machine over authenticator/consumer/lookup/validation/body-read counters; the first answer of each stage is judged against the request's own values, the Content-Type header is rewritten after its first parse, and a third of the sequences are preceded by the same request asked once and another client's request to the same operation (the grant must not change). " +
+			"(b) random sequences (<=12, with repetition) over RouteInfo/ContentType/ResponseFormat/Authorize/BindAndValidate/ResetAuth on one request (its own token per sequence; key / bearer / both / bad / nil-principal / no credentials; binding outcomes valid, 415, and invalid for validation reasons only), threading the returned request, judged by a 5-flag reference state machine over authenticator/consumer/lookup/validation/body-read counters; the first answer of each stage is judged against the request's own values (ContentType: media type and charset, both compared on every later ask), the Content-Type header is rewritten after its first parse and the first BindAndValidate after it must judge the body by the parsed value, and a third of the sequences are preceded by the same request asked once and another client's request to the same operation (the grant must not change). " +
 			"non-trivial = (a) a run in which >= 2 requests were in flight at once (measured), distinct by hook-trace hash; (b) a sequence with >= 1 repeated accessor, distinct by (request shape, sequence)",
 		Assumptions: []string{
 			"isolation is judged by token equality on everything observable: MatchedRoute params seen by a Builder wrapper, the principal shown to the authorizer, bound values, selected producer/content type echoed in the response",
@@ -117,6 +117,28 @@ type server struct {
 	bothMu sync.Mutex
 	both   map[string]string
 	hist   []string
+
+	// tokens of the requests whose operation handler ran
+	ran sync.Map
+}
+
+// noteRan records, from the parameters an operation handler was given, whose request it is serving.
+func (s *server) noteRan(params interface{}) {
+	pm, _ := params.(map[string]interface{})
+	for _, v := range pm {
+		switch x := v.(type) {
+		case string:
+			s.ran.Store(tokenOf(x), true)
+		case []string:
+			for _, e := range x {
+				s.ran.Store(tokenOf(e), true)
+			}
+		case map[string]interface{}:
+			if t, ok := x["t"].(string); ok {
+				s.ran.Store(t, true)
+			}
+		}
+	}
 }
 
 // noteBoth records which of its two credentials identified a request satisfying two alternatives at once.
@@ -243,6 +265,7 @@ func buildServer() (*server, error) {
 		op := d.Ops[i]
 		api.RegisterOperation(op.Method, op.Template, rt.OperationHandlerFunc(func(params interface{}) (interface{}, error) {
 			runtime.Gosched()
+			s.noteRan(params)
 			res := map[string]interface{}{"op": op.ID, "bound": params}
 			if op.ID == "delA" {
 				return middleware.ResponderFunc(func(rw http.ResponseWriter, pr rt.Producer) {
@@ -302,26 +325,65 @@ type reqSpec struct {
 	creds      []string // credentials carried
 	bearer     string   // the bearer token among them
 	direct     bool     // driven accessor by accessor (RouteInfo, Authorize, BindAndValidate), as generated servers do
+	// refuse: the class of refusal this request must meet ("" = it is served): accept | ct | ctbad | query | cred | path | method | nocred
+	refuse string
+	// wantAny: the statuses a refusal of that class may answer with
+	wantAny []int
+	// generated: the direct flow binds with BindValidRequest and a binder of its own and answers with Respond
+	generated bool
+}
+
+// refusalStatus: what a refused request of each class is answered with. A malformed Content-Type is refused
+// either as unparsable (400) or as not admitted (415): this property does not say which.
+var refusalStatus = map[string][]int{
+	"accept": {406},
+	"ct":     {415},
+	"ctbad":  {400, 415},
+	"query":  {422},
+	"cred":   {401},
+	"nocred": {401},
+	"path":   {404},
+	"method": {405},
 }
 
 func mkRequest(r *rand.Rand, token string) *reqSpec {
-	ops := []string{"getA", "postA", "putB", "delA", "getB", "postW", "postE", "postE", "getS", "getS"}
+	ops := []string{"getA", "postA", "putB", "delA", "getB", "postW", "postE", "postE", "getS", "getS", "postV"}
 	op := ops[r.Intn(len(ops))]
 	acc := []string{"application/json", "text/plain"}[r.Intn(2)]
 	rs := &reqSpec{op: op, token: token, accept: acc, expect: map[string]string{}}
 	v := func(s string) string { return token + "~" + s }
+	// about a quarter of the requests are refusals of one class each, interleaved with served requests to
+	// the same routes
+	if r.Intn(4) == 0 {
+		rs.refuse = []string{"accept", "ct", "ctbad", "query", "cred", "path", "method"}[r.Intn(7)]
+		hasBody := op == "postA" || op == "postE" || op == "postW" || op == "postV"
+		hasCred := op == "getA" || op == "postA" || op == "delA" || op == "getB" || op == "postE"
+		switch {
+		case (rs.refuse == "ct" || rs.refuse == "ctbad") && !hasBody,
+			rs.refuse == "query" && op != "postV",
+			rs.refuse == "cred" && !hasCred:
+			rs.refuse = ""
+		}
+	}
+	// a credential its scheme rejects
+	c := func(s string) string {
+		if rs.refuse == "cred" {
+			return token + "~" + s + "~bad"
+		}
+		return token + "~" + s
+	}
 	var req *http.Request
 	switch op {
 	case "getA":
 		q := url.Values{"q": {v("q")}}
 		if r.Intn(2) == 0 {
-			q.Set("tok", v("tk"))
-			rs.creds = []string{v("tk")}
+			q.Set("tok", c("tk"))
+			rs.creds = []string{c("tk")}
 		}
 		req = httptest.NewRequest("GET", "/api/a/"+url.PathEscape(v("id"))+"?"+q.Encode(), nil)
 		if q.Get("tok") == "" {
-			req.Header.Set("X-Key", v("k"))
-			rs.creds = []string{v("k")}
+			req.Header.Set("X-Key", c("k"))
+			rs.creds = []string{c("k")}
 		}
 		req.Header.Set("X-H", v("h"))
 		rs.expect["id"], rs.expect["q"], rs.expect["X-H"] = v("id"), v("q"), v("h")
@@ -329,8 +391,8 @@ func mkRequest(r *rand.Rand, token string) *reqSpec {
 		body := fmt.Sprintf(`{"t":%q}`, token)
 		req = httptest.NewRequest("POST", "/api/a/"+url.PathEscape(v("id"))+"?tok="+url.QueryEscape(v("tk")), strings.NewReader(body))
 		req.Header.Set("Content-Type", "application/json")
-		req.Header.Set("X-Key", v("k"))
-		rs.creds = []string{v("k"), v("tk")}
+		req.Header.Set("X-Key", c("k")) // refused even when the other scheme of the AND accepts
+		rs.creds = []string{c("k"), v("tk")}
 		rs.expect["id"] = v("id")
 		rs.expBody = token
 		rs.ct = "application/json"
@@ -351,11 +413,12 @@ func mkRequest(r *rand.Rand, token string) *reqSpec {
 		body := fmt.Sprintf(`{"t":%q}`, token)
 		req = httptest.NewRequest("POST", "/api/e", strings.NewReader(body))
 		req.Header.Set("Content-Type", "application/json")
-		if r.Intn(3) == 0 {
+		if rs.refuse == "" && r.Intn(3) == 0 {
 			rs.wantStatus = 401 // no credentials: whatever earlier requests to this route presented
+			rs.refuse = "nocred"
 		} else {
-			req.Header.Set("X-Key", v("k"))
-			rs.creds = []string{v("k")}
+			req.Header.Set("X-Key", c("k"))
+			rs.creds = []string{c("k")}
 			rs.expBody = token
 		}
 		rs.ct = "application/json"
@@ -371,16 +434,32 @@ func mkRequest(r *rand.Rand, token string) *reqSpec {
 		rs.expect["x"], rs.expect["y"] = v("x"), v("y")
 		rs.expect["arr"] = v("1") + "," + v("2")
 	case "delA":
-		req = httptest.NewRequest("DELETE", "/api/a/"+url.PathEscape(v("id"))+"?tok="+url.QueryEscape(v("tk")), nil)
-		rs.creds = []string{v("tk")}
+		req = httptest.NewRequest("DELETE", "/api/a/"+url.PathEscape(v("id"))+"?tok="+url.QueryEscape(c("tk")), nil)
+		rs.creds = []string{c("tk")}
 		rs.expect["id"] = v("id")
 	case "getB":
 		req = httptest.NewRequest("GET", "/api/b/"+url.PathEscape(v("x"))+"?q="+url.QueryEscape(v("q")), nil)
-		if r.Intn(2) == 0 {
-			req.Header.Set("X-Key", v("k"))
-			rs.creds = []string{v("k")}
+		if rs.refuse == "cred" || r.Intn(2) == 0 {
+			// a rejected credential is not made good by the anonymous alternative
+			req.Header.Set("X-Key", c("k"))
+			rs.creds = []string{c("k")}
 		}
 		rs.expect["x"], rs.expect["q"] = v("x"), v("q")
+	case "postV":
+		body := fmt.Sprintf(`{"t":%q}`, token)
+		target := "/api/v/" + url.PathEscape(v("id"))
+		switch {
+		case rs.refuse != "query":
+			target += "?n=7"
+			rs.expect["n"] = "7"
+		case r.Intn(2) == 0:
+			target += "?n=many"
+		}
+		req = httptest.NewRequest("POST", target, strings.NewReader(body))
+		req.Header.Set("Content-Type", "application/json")
+		rs.expect["id"] = v("id")
+		rs.expBody = token
+		rs.ct = "application/json"
 	}
 	req.Header.Set("X-Token", token)
 	// the same negotiated type asked in several spellings, some sharing their first header line with a
@@ -396,12 +475,40 @@ func mkRequest(r *rand.Rand, token string) *reqSpec {
 	default:
 		req.Header.Set("Accept", acc)
 	}
+	switch rs.refuse {
+	case "accept":
+		req.Header["Accept"] = []string{"image/png"} // nothing the operation produces
+	case "ct":
+		if op == "postW" {
+			req.Header.Set("Content-Type", "image/png") // postW admits text/* (and the API-wide application/json)
+		} else {
+			req.Header.Set("Content-Type", "text/plain")
+		}
+	case "ctbad":
+		req.Header.Set("Content-Type", "bogus/")
+	case "path":
+		req.URL.Path, req.URL.RawPath = "/api/zz/"+token, ""
+	case "method":
+		req.Method = "PATCH" // declared for no path
+	}
+	if rs.refuse != "" {
+		rs.wantAny = refusalStatus[rs.refuse]
+	}
 	rs.req = req
 	rs.direct = r.Intn(4) == 0
+	rs.generated = r.Intn(2) == 0
 	return rs
 }
 
 func judgeResponse(rs *reqSpec, rec *httptest.ResponseRecorder) string {
+	if rs.refuse != "" && rs.refuse != "nocred" {
+		for _, st := range rs.wantAny {
+			if rec.Code == st {
+				return ""
+			}
+		}
+		return fmt.Sprintf("status %d, a refusal of class %q answers %v; body %.120q", rec.Code, rs.refuse, rs.wantAny, rec.Body.String())
+	}
 	if rs.wantStatus != 0 {
 		if rec.Code != rs.wantStatus {
 			return fmt.Sprintf("status %d, expected %d (the request carries no credentials); body %.120q", rec.Code, rs.wantStatus, rec.Body.String())
@@ -482,10 +589,25 @@ func scopesFor(op string, principal interface{}, bearer string) string {
 	return ""
 }
 
-// directFlow drives one request the way a generated server does: RouteInfo, Authorize, BindAndValidate on
-// the shared Context, reading back what each stage stored in the request it returned.
+// binderFunc is a RequestBinder of the embedding program (what a generated parameter struct is).
+type binderFunc func(*http.Request, *middleware.MatchedRoute) error
+
+func (f binderFunc) BindRequest(r *http.Request, route *middleware.MatchedRoute) error {
+	return f(r, route)
+}
+
+// directFlow drives one request the way a generated server does: RouteInfo, Authorize, then either
+// BindAndValidate or (generated) BindValidRequest with a binder of its own followed by Respond, all on the
+// shared Context, reading back what each stage stored in the request it returned. A request that must be
+// refused is refused by the stage its class names.
 func (s *server) directFlow(rs *reqSpec) string {
 	rr, r1, ok := s.ctx.RouteInfo(rs.req)
+	if rs.refuse == "path" || rs.refuse == "method" {
+		if ok || rr != nil {
+			return fmt.Sprintf("RouteInfo found a route for %s %s, declared for nothing", rs.req.Method, rs.req.URL.Path)
+		}
+		return ""
+	}
 	if !ok || rr == nil || r1 == nil {
 		return "RouteInfo found no route"
 	}
@@ -502,9 +624,13 @@ func (s *server) directFlow(rs *reqSpec) string {
 	}
 	cur := r1
 	p, r2, err := s.ctx.Authorize(cur, rr)
-	if rs.wantStatus == 401 {
+	if rs.refuse == "nocred" || rs.refuse == "cred" {
 		if err == nil {
-			return fmt.Sprintf("Authorize admitted (principal %v) a request that carries no credentials", p)
+			return fmt.Sprintf("Authorize admitted (principal %v) a request whose credentials are %v", p, rs.creds)
+		}
+		// a refusal is no result to reuse: asked again, the same request is refused again
+		if p2, _, err2 := s.ctx.Authorize(cur, rr); err2 == nil {
+			return fmt.Sprintf("a second Authorize admitted (principal %v) the request the first refused (%v)", p2, err)
 		}
 		return ""
 	}
@@ -540,12 +666,42 @@ func (s *server) directFlow(rs *reqSpec) string {
 	if r2 != nil {
 		cur = r2
 	}
-	bound, _, err := s.ctx.BindAndValidate(cur, rr)
-	if err != nil {
-		return fmt.Sprintf("BindAndValidate: %v", err)
+	var bm map[string]interface{}
+	if rs.generated {
+		// the binder decodes with the consumer the Context selected for this request
+		bm = map[string]interface{}{}
+		err = s.ctx.BindValidRequest(cur, rr, binderFunc(func(r *http.Request, route *middleware.MatchedRoute) error {
+			return route.Binder.Bind(r, route.Params, route.Consumer, bm)
+		}))
+	} else {
+		var bound interface{}
+		bound, _, err = s.ctx.BindAndValidate(cur, rr)
+		bm, _ = bound.(map[string]interface{})
 	}
-	bm, _ := bound.(map[string]interface{})
-	return judgeBound(rs, bm)
+	switch rs.refuse {
+	case "accept", "ct", "ctbad", "query":
+		if err == nil {
+			return fmt.Sprintf("binding (generated=%v) found nothing wrong with a request of refusal class %q", rs.generated, rs.refuse)
+		}
+		return ""
+	}
+	if err != nil {
+		return fmt.Sprintf("binding (generated=%v): %v", rs.generated, err)
+	}
+	if msg := judgeBound(rs, bm); msg != "" || !rs.generated {
+		return msg
+	}
+	rec := httptest.NewRecorder()
+	var data interface{} = map[string]interface{}{"op": rs.op, "bound": bm}
+	if rs.op == "delA" {
+		res := data
+		data = middleware.ResponderFunc(func(rw http.ResponseWriter, pr rt.Producer) {
+			rw.WriteHeader(200)
+			_ = pr.Produce(rw, res)
+		})
+	}
+	s.ctx.Respond(rec, cur, rr.Produces, rr, data)
+	return judgeResponse(rs, rec)
 }
 
 type hookSched struct {
@@ -601,6 +757,8 @@ func runConcurrentOnce(m *mon.M, cfg *RunCfg, salt int64) {
 	var wg sync.WaitGroup
 	var mu sync.Mutex
 	var bad []string
+	badRefusal := map[string][]string{}
+	nByClass := map[string]int64{}
 	var served int64
 	start := make(chan struct{})
 	for g := 0; g < cfg.Goroutines; g++ {
@@ -635,13 +793,24 @@ func runConcurrentOnce(m *mon.M, cfg *RunCfg, salt int64) {
 				} else if !rs.direct {
 					msg = judgeResponse(rs, rec)
 				}
-				if msg != "" {
-					mu.Lock()
-					if len(bad) < 20 {
-						bad = append(bad, fmt.Sprintf("[%s %s token=%s] %s", rs.req.Method, rs.req.URL.RequestURI(), token, msg))
+				if msg == "" && rs.refuse != "" {
+					if _, ran := s.ran.Load(token); ran {
+						msg = fmt.Sprintf("the operation handler ran for a request that must be refused (class %q)", rs.refuse)
 					}
-					mu.Unlock()
 				}
+				mu.Lock()
+				nByClass[rs.refuse]++
+				if msg != "" {
+					line := fmt.Sprintf("[%s %s token=%s direct=%v] %s", rs.req.Method, rs.req.URL.RequestURI(), token, rs.direct, msg)
+					if rs.refuse != "" && rs.refuse != "nocred" && pv == nil {
+						if len(badRefusal[rs.refuse]) < 10 {
+							badRefusal[rs.refuse] = append(badRefusal[rs.refuse], line)
+						}
+					} else if len(bad) < 20 {
+						bad = append(bad, line)
+					}
+				}
+				mu.Unlock()
 			}
 		}(g)
 	}
@@ -668,6 +837,14 @@ func runConcurrentOnce(m *mon.M, cfg *RunCfg, salt int64) {
 	one.Repeat = 20
 	if len(bad) > 0 {
 		m.Violate("cross-talk-or-wrong-response", strings.Join(bad, "\n"), &one)
+	}
+	for class, l := range badRefusal {
+		m.Violate("refusal-under-concurrency/"+class, strings.Join(l, "\n"), &one)
+	}
+	for class, n := range nByClass {
+		if class != "" {
+			m.Note("concurrent_refusals_"+class, n)
+		}
 	}
 	s.xt.mu.Lock()
 	if len(s.xt.list) > 0 {
@@ -819,6 +996,15 @@ func seqRequest(sc *SeqCase, token, cred string, withBody bool) (*http.Request, 
 	return req, cb, cands
 }
 
+// ctParsed: what the Content-Type headers of the sequence generator say (media type, charset).
+var ctParsed = map[string][2]string{
+	"application/json":                          {"application/json", ""},
+	"application/json; charset=utf-8":           {"application/json", "utf-8"},
+	"text/plain":                                {"text/plain", ""},
+	"text/plain;charset=ISO-8859-1":             {"text/plain", "ISO-8859-1"},
+	"Application/JSON; Charset=\"utf-16\"; q=1": {"application/json", "utf-16"},
+}
+
 func scopeString(r *http.Request) string {
 	if r == nil {
 		return ""
@@ -899,7 +1085,7 @@ func runSequence(m *mon.M, s *server, sc *SeqCase, cfg *RunCfg) {
 	var route *middleware.MatchedRoute
 	// reference flags
 	var routeMemo, ctMemo, fmtMemo, authMemo, bindMemo bool
-	var memoCT, memoFmt string
+	var memoCT, memoCS, memoFmt string
 	var memoPrincipal interface{}
 	var memoScopes string
 	var memoBindErr string
@@ -940,12 +1126,22 @@ func runSequence(m *mon.M, s *server, sc *SeqCase, cfg *RunCfg) {
 			})
 		case "C":
 			stepErr, _ = mon.Catch(func() {
-				mt, _, r2, err := s.ctx.ContentType(cur)
+				mt, cs, r2, err := s.ctx.ContentType(cur)
 				if err == nil {
-					if ctMemo && mt != memoCT {
-						fail("content-type-memo-differs", fmt.Sprintf("step %d ContentType %q, first %q", i, mt, memoCT))
+					if ctMemo {
+						if mt != memoCT {
+							fail("content-type-memo-differs", fmt.Sprintf("step %d ContentType %q, first %q", i, mt, memoCT))
+						} else if cs != memoCS {
+							// what later askers are handed is the result the stage produced: all of it
+							fail("content-type-memo-differs/charset", fmt.Sprintf("step %d ContentType (%q, charset %q), the first asker was told (%q, charset %q)", i, mt, cs, memoCT, memoCS))
+						}
+					} else if want, known := ctParsed[sc.CT]; known && (mt != want[0] || !strings.EqualFold(cs, want[1])) {
+						// first answer: parsed from this request's header
+						fail("content-type-first-answer-wrong", fmt.Sprintf("step %d ContentType (%q, charset %q) for the header %q", i, mt, cs, sc.CT))
 					}
-					ctMemo, memoCT = true, mt
+					if !ctMemo {
+						ctMemo, memoCT, memoCS = true, mt, cs
+					}
 					if r2 != nil {
 						cur = r2
 					}
@@ -956,7 +1152,7 @@ func runSequence(m *mon.M, s *server, sc *SeqCase, cfg *RunCfg) {
 						if mt == "text/plain" {
 							cur.Header.Set("Content-Type", "application/json")
 						} else {
-							cur.Header.Set("Content-Type", "text/plain")
+							cur.Header.Set("Content-Type", "text/plain; charset=koi8-r")
 						}
 					}
 				}
@@ -1063,7 +1259,23 @@ func runSequence(m *mon.M, s *server, sc *SeqCase, cfg *RunCfg) {
 					if es != memoBindErr || bs != memoBound {
 						fail("binding-memo-differs", fmt.Sprintf("step %d BindAndValidate (%s, %q), first (%s, %q)", i, bs, es, memoBound, memoBindErr))
 					}
-				} else if bm, ok := bound.(map[string]interface{}); ok && err == nil {
+				}
+				if !bindMemo && ctMemo && sc.Body && (sc.Op == "postA" || sc.Op == "postV") && sc.N == "" && sc.Accept != "image/png" {
+					// the first binding after the content type was parsed is a later asker of that stage: it is
+					// served the parsed value (the header may have been rewritten since), so the JSON body of
+					// this otherwise valid request is admitted iff the parsed media type is the one the
+					// operation consumes
+					admitted := memoCT == "application/json"
+					switch {
+					case admitted && err != nil:
+						fail("binding-ignores-parsed-content-type/admitted", fmt.Sprintf("step %d first BindAndValidate: %q, although ContentType had answered %q", i, es, memoCT))
+					case !admitted && err == nil:
+						fail("binding-ignores-parsed-content-type/not-admitted", fmt.Sprintf("step %d first BindAndValidate bound %s, although ContentType had answered %q, which the operation does not consume", i, bs, memoCT))
+					case !admitted && atomic.LoadInt64(&s.consumed) != before.c:
+						fail("binding-ignores-parsed-content-type/not-admitted-consumed", fmt.Sprintf("step %d first BindAndValidate ran a consumer, although ContentType had answered %q, which the operation does not consume", i, memoCT))
+					}
+				}
+				if bm, ok := bound.(map[string]interface{}); ok && err == nil && !bindMemo {
 					// first outcome, valid: the values are this request's
 					for _, k := range []string{"id", "x", "q"} {
 						if sv, ok := bm[k].(string); ok && !strings.HasPrefix(sv, token+"~") {
@@ -1117,9 +1329,10 @@ func runSequence(m *mon.M, s *server, sc *SeqCase, cfg *RunCfg) {
 
 func genSeq(r *rand.Rand) *SeqCase {
 	sc := &SeqCase{
-		Op:     []string{"getA", "postA", "getB", "postA", "getS", "postV", "getS", "postV"}[r.Intn(8)],
-		Cred:   []string{"good", "good", "bad", "none", "zero", "bearer", "both"}[r.Intn(7)],
-		CT:     []string{"application/json", "application/json; charset=utf-8", "", "text/plain", "bogus/"}[r.Intn(5)],
+		Op:   []string{"getA", "postA", "getB", "postA", "getS", "postV", "getS", "postV"}[r.Intn(8)],
+		Cred: []string{"good", "good", "bad", "none", "zero", "bearer", "both"}[r.Intn(7)],
+		CT: []string{"application/json", "application/json; charset=utf-8", "", "text/plain", "bogus/",
+			"text/plain;charset=ISO-8859-1", "application/json; charset=utf-8", "Application/JSON; Charset=\"utf-16\"; q=1"}[r.Intn(8)],
 		Accept: []string{"application/json", "text/plain", "", "image/png", "text/plain;q=0.5, application/json;q=0.4"}[r.Intn(5)],
 	}
 	sc.Body = (sc.Op == "postA" || sc.Op == "postV") && r.Intn(4) != 0
